@@ -295,7 +295,80 @@ def f_normalize(a):
     return {"op": "normalize", "sr": srmodel(a["sr"]), "in": a["G"], "out": out, "sigma": a["G"]["V"], "L": a["L"]}
 
 
-FUNCS = {"parse": f_parse, "prefix": f_prefix, "prefixgrammar": f_prefixgrammar, "derivative": f_derivative,
+def _lm(backend, g):
+    if backend == "earley":
+        from genlm.grammar.parse.earley import EarleyLM
+        return EarleyLM(g)
+    if backend == "rescaled":
+        from genlm.grammar.parse.earley_rescaled import EarleyLM
+        return EarleyLM(g)
+    if backend == "cky":
+        from genlm.grammar.parse.cky import CKYLM
+        return CKYLM(g)
+    raise ValueError(backend)
+
+
+def _dist(g, lm, p):
+    toks = sorted(lm.V, key=repr)
+    return [[tname(t), enc_w(g.R, p[t])] for t in toks]
+
+
+def f_pnext(a):
+    g = build(a["G"], a["sr"], a.get("names", "str"))
+    lm = _lm(a["backend"], g)
+    ctx = ustr(a["ctx"])
+    for pre in a.get("warm", []):          # earlier queries on the same object (history must not matter)
+        lm.p_next(ustr(pre))
+    p = lm.p_next(ctx)
+    return {"op": "pnext", "sr": srmodel(a["sr"]), "G": a["G"], "ctx": a["ctx"], "eos": EOS_NAME, "dist": _dist(g, lm, p)}
+
+
+def f_ntw(a):
+    """Unnormalised next-token weights of the parser that the LM is built on."""
+    g = build(a["G"], a["sr"], a.get("names", "str"))
+    ge = add_EOS(g)
+    ctx = ustr(a["ctx"])
+    k = a["backend"]
+    if k == "earley":
+        from genlm.grammar.parse.earley import Earley
+        m = Earley(ge.prefix_grammar)
+        p = m.next_token_weights(m.chart(ctx))
+    elif k == "cky":
+        from genlm.grammar.parse.cky import IncrementalCKY
+        m = IncrementalCKY(ge.cnf.prefix_grammar.cnf)
+        p = m.p_next(ctx)
+    else:
+        raise ValueError(k)
+    toks = sorted(ge.V, key=repr)
+    return {"op": "ntw", "sr": srmodel(a["sr"]), "G": a["G"], "ctx": a["ctx"], "eos": EOS_NAME,
+            "dist": [[tname(t), enc_w(g.R, coerce(g.R, p[t]))] for t in toks]}
+
+
+def f_ntw_vs_parser(a):
+    """ntw[t] must be the weight the underlying parser assigns to ctx.t: recorded as parse events' twin."""
+    g = build(a["G"], a["sr"], a.get("names", "str"))
+    ge = add_EOS(g)
+    ctx = ustr(a["ctx"])
+    from genlm.grammar.parse.earley import Earley
+    m = Earley(ge.prefix_grammar)
+    p = m.next_token_weights(m.chart(ctx))
+    toks = sorted(ge.V, key=repr)
+    same = all(p[t] == m(ctx + (t,)) for t in toks)
+    if not same:
+        raise AssertionError("next_token_weights differs from the parser's weight of context+token")
+    return {"op": "ntw", "sr": srmodel(a["sr"]), "G": a["G"], "ctx": a["ctx"], "eos": EOS_NAME,
+            "dist": [[tname(t), enc_w(g.R, coerce(g.R, m(ctx + (t,))))] for t in toks]}
+
+
+def f_lmcall(a):
+    g = build(a["G"], a["sr"], a.get("names", "str"))
+    lm = _lm(a["backend"], g)
+    s = ustr(a["s"])
+    v = lm(s + (EOS,))
+    return {"op": "lmcall", "sr": srmodel(a["sr"]), "G": a["G"], "s": a["s"], "res": enc_w(g.R, v)}
+
+
+FUNCS = {"pnext": f_pnext, "ntw": f_ntw, "ntw_vs_parser": f_ntw_vs_parser, "lmcall": f_lmcall,"parse": f_parse, "prefix": f_prefix, "prefixgrammar": f_prefixgrammar, "derivative": f_derivative,
          "transform": f_transform, "treesum": f_treesum, "lang": f_lang, "mask": f_mask, "addeos": f_addeos,
          "normalize": f_normalize, "derivcall": f_derivcall, "explen": f_explen}
 
